@@ -28,7 +28,7 @@ def default_values(case):
 signature_matches = c01.signature_matches
 
 EDITS = ['none', 'replace-initial-condition', 'add-metric', 'add-lmi', 'switch-backend', 'primal-mode', 'trace-heuristic',
-         'failed-middle-solve']
+         'failed-middle-solve', 'new-sample']
 
 
 def apply_edit(env, m, edit, tagname=""):
@@ -42,6 +42,18 @@ def apply_edit(env, m, edit, tagname=""):
         m.constraints = [c] + list(m.constraints[1:])
     elif edit == 'add-metric':
         met = m.exprs['dist']
+        pep.set_performance_metric(met)
+        m.metrics.append(met)
+    elif edit == 'new-sample':
+        # the user evaluates the function (for a linear operator: its adjoint) at one more point between two solves
+        from PEPit import Point
+        u = Point()
+        target = m.f.T if hasattr(m.f, 'T') else m.f
+        gu = target.gradient(u)
+        c = (u ** 2 <= 1)
+        pep.add_constraint(c)
+        m.constraints.append(c)
+        met = gu ** 2
         pep.set_performance_metric(met)
         m.metrics.append(met)
     elif edit == 'add-lmi':
@@ -185,7 +197,7 @@ def prog(env, case):
     # ---- (d) nothing accumulates: same input as a freshly built equivalent model -------------------------------
     r_last = c12.record(env, m, b2)
     m_f = pipeline.build(env, spec)
-    if edit in ('replace-initial-condition', 'add-metric', 'add-lmi'):
+    if edit in ('replace-initial-condition', 'add-metric', 'add-lmi', 'new-sample'):
         apply_edit(env, m_f, edit)
     tf, ef = pipeline.safe_solve(env, m_f.pep, tag + ":fresh", wrapper=b2, **kw)
     if ef:
@@ -245,6 +257,7 @@ MODELS = [
     ('lmi', dict(fclass='ssc', steps=['grad'], lmis=['sym2'], lmi_metric=False)),
     ('quad', dict(fclass='quad', steps=['grad'])),
     ('partition', dict(fclass='ssc', steps=['grad'], partition=2)),
+    ('linop', dict(fclass='linop', steps=['grad'], value_metric=False)),
 ]
 
 
@@ -254,6 +267,8 @@ def cases(tier):
         for edit in EDITS:
             for be in (('cvxpy',) if tier == 'quick' and mname != 'gd' else ('cvxpy', 'mosek')):
                 if tier == 'quick' and mname in ('quad', 'partition') and edit not in ('none', 'add-metric', 'switch-backend'):
+                    continue
+                if tier == 'quick' and mname == 'linop' and edit not in ('none', 'new-sample'):
                     continue
                 cs.append(dict(id="%s-%s-%s" % (mname, edit, be), mname=mname, spec=spec, edit=edit, backend=be,
                                input_zero_tests='generic', output_branches='first'))
